@@ -503,7 +503,232 @@ def C12(c):
     c.corr("random", rnd, combos_of(["list", "dict_str"], [PT]), judge=judge)
 
 
-SUITES = {"C01": C01, "C02": C02, "C03": C03, "C04": C04, "C05": C05, "C06": C06, "C07": C07, "C08": C08, "C09": C09, "C10": C10, "C12": C12}
+# ------------------------------------------------------------------------------------------------ C20
+def _seq_as(kind, sums):
+    return list(sums) if kind == "list" else (tuple(sums) if kind == "tuple" else np.array(sums, dtype=np.int64))
+
+
+def C20(c):
+    """built-in objectives compute their documented quantity on every sum vector"""
+    rng = c.rng
+    from fractions import Fraction
+    from algs import objective_impl
+    vecs = [list(v) for n in range(1, c.n(4, 5)) for v in itertools.product(range(0, c.n(5, 6)), repeat=n)]
+    c.exhaustive_scopes.append(f"all sum vectors with 1..{c.n(3,4)} entries from 0..{c.n(4,5)} x every objective (k in 1..n+2) x list/tuple/array x both flag values where applicable")
+    for _ in range(c.n(600, 6000)):
+        n = rng.randint(1, 9)
+        vecs.append(gen.rand_vals(rng, n))
+    triples = []
+    for sums in vecs:
+        n = len(sums)
+        objs = ["maxmin", "minmax", "diff"] + [f"ksmall:{k}" for k in range(1, n + 3)] + [f"klarge:{k}" for k in range(1, n + 3)]
+        if len(sums) > 4:
+            objs = ["maxmin", "minmax", "diff", f"ksmall:{rng.randint(1, n + 2)}", f"klarge:{rng.randint(1, n + 2)}"]
+        is_sorted = all(sums[i] <= sums[i + 1] for i in range(n - 1))
+        for o in objs:
+            for flag in ([0, 1] if is_sorted else [0]):
+                kind = rng.choice(["list", "tuple", "array"])
+                def thunk(o=o, sums=sums, flag=flag, kind=kind):
+                    return num(objective_impl(o).value_to_minimize(_seq_as(kind, sums), are_sums_in_ascending_order=bool(flag)))
+                triples.append((f"objvalue obj={o} sorted={flag} sums={f_nats(sums)}", thunk,
+                                {"alg": "objective.value_to_minimize", "vals": sums, "obj": o, "sorted": flag, "seq": kind}))
+    c.direct("objective-values", triples, nontrivial=lambda label, ans: len(set(label["vals"])) >= 2)
+    # the documented quantity, computed independently, on the implementation's own answers
+    for sums in vecs[: c.n(3000, 30000)]:
+        n = len(sums)
+        for o in ["maxmin", "minmax", "diff", f"ksmall:{rng.randint(1, n + 2)}", f"klarge:{rng.randint(1, n + 2)}"]:
+            sh = list(sums); rng.shuffle(sh)
+            got = num(objective_impl(o).value_to_minimize(_seq_as(rng.choice(["list", "tuple", "array"]), sh)))
+            want = obj_value(o, sums)
+            c.check_direct("objective.value_to_minimize", {"vals": sh, "obj": o}, "documented-quantity", got == want, got,
+                           f"documented function of the sums: {want}")
+    # weighted objective: -min(s_i / w_i); compared as correctly rounded floats of the exact rational
+    wt = []
+    for _ in range(c.n(400, 4000)):
+        n = rng.randint(1, 6)
+        sums = [rng.randint(0, 60) for _ in range(n)]
+        ws = [rng.choice([1, 2, 3, 4, 5, 7, 8, 10, Fraction(1, 2), Fraction(3, 4), Fraction(5, 8)]) for _ in range(n)]
+        wline = "[" + ",".join(f"{Fraction(w).numerator}/{Fraction(w).denominator}" for w in ws) + "]"
+        def thunk(sums=sums, ws=ws):
+            r = obj.MaximizeSmallestWeightedSum([float(w) for w in ws]).value_to_minimize(list(sums))
+            return float(r)
+        wt.append((f"weighted weights={wline} sums={f_nats(sums)}", thunk, {"alg": "weighted", "vals": sums, "weights": [str(w) for w in ws]}))
+    answers = model_query([t[0] for t in wt])
+    for (line, thunk, label), ans in zip(wt, answers):
+        if isinstance(ans, dict) and "bad" in ans:
+            raise InfraError(f"driver rejected {line}")
+        nume, den = ans.split("/")
+        want = float(Fraction(int(nume), int(den)))
+        got = thunk()
+        c.evaluations += 1; c.corr_cases += 1
+        c.stats["weighted"]["cases"] += 1
+        c.distinct.add(line); c.nontrivial.add(line)
+        if got != want:
+            c.disagreements.append({"stream": "weighted", "alg": "weighted", "case": {"vals": label["vals"], "p": label}, "fmt": "direct",
+                                    "outtype": "-", "impl": got, "model": want, "request": line})
+    # the weighted objective refuses the sorted flag
+    try:
+        obj.MaximizeSmallestWeightedSum([1, 2]).value_to_minimize([1, 2], are_sums_in_ascending_order=True)
+        ok = False
+    except ValueError:
+        ok = True
+    except Exception:
+        ok = False
+    c.check_direct("weighted", {"vals": [1, 2], "weights": [1, 2], "sorted": 1}, "weighted-sorted-flag", ok, None, "ValueError")
+
+
+# ------------------------------------------------------------------------------------------------ C13
+def _compositions(total, k):
+    if k == 1:
+        yield (total,)
+        return
+    for x in range(total + 1):
+        for rest in _compositions(total - x, k - 1):
+            yield (x,) + rest
+
+
+def C13(c):
+    """search bounds are admissible and search enumerators are complete"""
+    rng = c.rng
+    from algs import objective_impl
+    # ---- (a) lower bounds: correspondence, admissibility (brute force), independence of the sorted flag
+    vecs = [list(v) for n in range(1, c.n(4, 5)) for v in itertools.combinations_with_replacement(range(0, c.n(6, 7)), n)]
+    rems = list(range(0, c.n(7, 9)))
+    c.exhaustive_scopes.append(f"bounds: all sorted sum vectors with 1..{c.n(3,4)} entries from 0..{c.n(5,6)} x remaining total 0..{c.n(6,8)} x 3 objectives")
+    cases = [(v, r) for v in vecs for r in rems]
+    for _ in range(c.n(300, 3000)):
+        n = rng.randint(1, 6)
+        cases.append((sorted(gen.rand_vals(rng, n, rng.choice(["tiny", "small", "mid", "zeros", "equal"]))), rng.randint(0, 60)))
+    triples = []
+    for sums, rem in cases:
+        for o in C.OBJS3 + (["ksmall:2"] if rng.random() < 0.05 else []):
+            sh = list(sums); rng.shuffle(sh)
+            for flag, vec in ((1, sums), (0, sh)):
+                def thunk(o=o, vec=vec, rem=rem, flag=flag):
+                    return num(objective_impl(o).lower_bound(list(vec), rem, are_sums_in_ascending_order=bool(flag)))
+                triples.append((f"lb obj={o} sorted={flag} sums={f_nats(vec)} rem={rem}", thunk,
+                                {"alg": "objective.lower_bound", "vals": list(vec), "obj": o, "rem": rem, "sorted": flag}))
+    c.direct("lower-bounds", triples, nontrivial=lambda label, ans: label["rem"] > 0 and len(label["vals"]) >= 2)
+    for sums, rem in cases:
+        k = len(sums)
+        small = k <= 4 and rem <= 10
+        for o in C.OBJS3:
+            impl_o = objective_impl(o)
+            lb_sorted = num(impl_o.lower_bound(list(sums), rem, are_sums_in_ascending_order=True))
+            sh = list(sums); rng.shuffle(sh)
+            lb_unsorted = num(impl_o.lower_bound(sh, rem, are_sums_in_ascending_order=False))
+            c.check_direct("objective.lower_bound", {"vals": sh, "obj": o, "rem": rem}, "sorted-flag-dependence", lb_sorted == lb_unsorted,
+                           [lb_sorted, lb_unsorted], "the bound must not depend on whether the caller says the sums are sorted")
+            if small:
+                best = min(obj_value(o, [s + a for s, a in zip(sums, adds)]) for adds in _compositions(rem, k))
+                c.check_direct("objective.lower_bound", {"vals": list(sums), "obj": o, "rem": rem}, "inadmissible-bound", lb_sorted <= best,
+                               lb_sorted, f"a value not above {best}, the best objective reachable by distributing {rem}")
+    # ---- (b) inclusion/exclusion enumerator
+    from prtpy.inclusion_exclusion_tree import InExclusionBinTree
+    tcases = []
+    for ms in gen.multisets(range(0, c.n(4, 6)), c.n(5, 6), min_len=0):
+        t = sum(ms)
+        wins = {(0, t), (t // 2, t), (0, t // 2), (t // 3, (2 * t) // 3)} | {(rng.randint(0, t + 1), rng.randint(0, t + 2)) for _ in range(2)}
+        for lb, ub in wins:
+            tcases.append((list(ms), 1, lb, ub))
+            if rng.random() < 0.3:
+                tcases.append((list(ms), 2, 2 * lb + 1, 2 * ub + 1))      # half-integer window
+    c.exhaustive_scopes.append(f"in/ex tree: all multisets of 0..{c.n(5,6)} values from 0..{c.n(3,5)} (arrival order shuffled) x integer and half-integer windows")
+    for _ in range(c.n(200, 2000)):
+        n = rng.randint(0, 9)
+        vals = gen.rand_vals(rng, n) if n else []
+        t = sum(vals)
+        den = rng.choice([1, 1, 2, 3, 5])
+        lb = rng.randint(0, t * den + 1); ub = rng.randint(lb // 2, t * den + 2)
+        tcases.append((vals, den, lb, ub))
+    triples = []
+    for vals, den, lb, ub in tcases:
+        vals = list(vals); rng.shuffle(vals)
+        ids = list(range(len(vals)))
+        def thunk(vals=vals, den=den, lb=lb, ub=ub):
+            from fractions import Fraction
+            names = list(range(len(vals)))
+            t = InExclusionBinTree(names, vals.__getitem__, upper_bound=ub / den, lower_bound=lb / den)
+            return [list(s) for s in t.generate_tree()]
+        triples.append((f"gentree den={den} lb={lb} ub={ub} items={f_items(vals, ids)}", thunk,
+                        {"alg": "InExclusionBinTree.generate_tree", "vals": vals, "den": den, "lb": lb, "ub": ub}))
+    c.direct("inex-tree", triples, nontrivial=lambda label, ans: len(label["vals"]) >= 2 and isinstance(ans, list) and 0 < len(ans) < 2 ** len(label["vals"]))
+    for line, thunk, label in triples:
+        vals, den, lb, ub = label["vals"], label["den"], label["lb"], label["ub"]
+        if len(vals) > 10:
+            continue
+        got = sorted(tuple(sorted(s)) for s in thunk())
+        want = sorted(sub for r in range(len(vals) + 1) for sub in itertools.combinations(range(len(vals)), r)
+                      if lb <= sum(vals[i] for i in sub) * den <= ub)
+        c.check_direct("InExclusionBinTree.generate_tree", label, "enumerator-incomplete", got == want, got,
+                       "every sub-collection (by position) whose total lies within the bounds exactly once and nothing else")
+    # ---- (c) all_combinations of both managers
+    from prtpy.binners import BinnerKeepingSums, BinnerKeepingContents
+    pairs = []
+    for k in range(1, c.n(4, 5)):
+        for a in itertools.combinations_with_replacement(range(0, c.n(3, 4)), k):
+            for b in itertools.combinations_with_replacement(range(0, c.n(3, 4)), k):
+                pairs.append((list(a), list(b)))
+    c.exhaustive_scopes.append(f"all_combinations (sums manager): all pairs of sorted sum vectors with 1..{c.n(3,4)} bins, entries 0..{c.n(2,3)}")
+    for _ in range(c.n(100, 1000)):
+        k = rng.randint(2, 5)
+        pairs.append(([rng.randint(0, 9) for _ in range(k)], [rng.randint(0, 9) for _ in range(k)]))
+    triples = []
+    for a, b in pairs:
+        def thunk(a=a, b=b):
+            return [[num(x) for x in s] for s in BinnerKeepingSums().all_combinations(list(a), list(b))]
+        triples.append((f"allcomb_sums a={f_nats(a)} b={f_nats(b)}", thunk, {"alg": "BinnerKeepingSums.all_combinations", "vals": a + b, "a": a, "b": b}))
+    c.direct("allcomb-sums", triples, nontrivial=lambda label, ans: len(label["a"]) >= 2)
+    for line, thunk, label in triples:
+        a, b = label["a"], label["b"]
+        got = [tuple(s) for s in thunk()]
+        want = {tuple(sorted(a[p[i]] + b[i] for i in range(len(a)))) for p in itertools.permutations(range(len(a)))}
+        c.check_direct("BinnerKeepingSums.all_combinations", label, "combinations", len(got) == len(set(got)) and set(got) == want, got,
+                       "every distinct pairing (as sorted sums) exactly once")
+    # contents manager: bins hold distinct item ids; values arbitrary
+    ctr = []
+    for _ in range(c.n(300, 3000)):
+        k = rng.randint(1, c.n(4, 5))
+        nid = itertools.count()
+        def mk():
+            lists = [[next(nid) for _ in range(rng.randint(0, 2))] for _ in range(k)]
+            return lists
+        l1, l2 = mk(), mk()
+        nn = next(nid)
+        vals = [rng.choice([0, 1, 1, 2, 3, 5]) for _ in range(nn)]
+        perm = list(range(nn)); rng.shuffle(perm)          # shuffle ids so that name order is unrelated to position
+        l1 = [[perm[i] for i in l] for l in l1]; l2 = [[perm[i] for i in l] for l in l2]
+        val_of = {perm[i]: vals[i] for i in range(nn)}
+        ctr.append((l1, l2, val_of))
+    triples = []
+    for l1, l2, val_of in ctr:
+        s1 = [sum(val_of[i] for i in l) for l in l1]; s2 = [sum(val_of[i] for i in l) for l in l2]
+        def fb(ls):
+            return "|".join("[" + ",".join(f"{i}:{val_of[i]}" for i in l) + "]" for l in ls)
+        def thunk(l1=l1, l2=l2, s1=s1, s2=s2, val_of=val_of):
+            bk = BinnerKeepingContents(val_of.__getitem__)
+            b1 = (np.array(s1, dtype=float), [list(l) for l in l1]); b2 = (np.array(s2, dtype=float), [list(l) for l in l2])
+            return [{"sums": [num(x) for x in r[0]], "bins": [list(l) for l in r[1]]} for r in bk.all_combinations(b1, b2)]
+        triples.append((f"allcomb_contents s1={f_nats(s1)} s2={f_nats(s2)} l1={fb(l1)} l2={fb(l2)}", thunk,
+                        {"alg": "BinnerKeepingContents.all_combinations", "vals": s1 + s2, "l1": l1, "l2": l2, "values": {str(k_): v for k_, v in val_of.items()}}))
+    c.direct("allcomb-contents", triples, nontrivial=lambda label, ans: len(label["l1"]) >= 2)
+    for line, thunk, label in triples:
+        l1, l2 = label["l1"], label["l2"]
+        k = len(l1)
+        got = thunk()
+        canon = [tuple(tuple(b) for b in r["bins"]) for r in got]
+        want = {frozenset(tuple(sorted(l1[p[i]] + l2[i])) for i in range(k)) for p in itertools.permutations(range(k))} if all(l1[i] or l2[j] for i in range(k) for j in range(k)) else None
+        ok = len(canon) == len(set(canon))
+        for r in got:     # sums describe the bins, bins in non-decreasing sum order
+            vo = {int(k_): v for k_, v in label["values"].items()}
+            ok = ok and r["sums"] == [sum(vo[i] for i in b) for b in r["bins"]] and r["sums"] == sorted(r["sums"])
+        if want is not None:
+            ok = ok and {frozenset(t) for t in canon} == want
+        c.check_direct("BinnerKeepingContents.all_combinations", label, "combinations", ok, got,
+                       "every distinct pairing of the bins (by the manager's canonical form) exactly once, sums consistent and ascending")
+
+
+SUITES = {"C01": C01, "C02": C02, "C03": C03, "C04": C04, "C05": C05, "C06": C06, "C07": C07, "C08": C08, "C09": C09, "C10": C10, "C12": C12, "C13": C13, "C20": C20}
 
 LEVELS = {}
 FINISH = {}
